@@ -180,6 +180,7 @@ class World:
         self.rx = []            # frames delivered to a node
         self.keep_wire = keep_wire
         self.frame_seen = {}    # identity key prefix -> count
+        self.delivering = None  # wire sequence number of the frame being delivered right now
         self.networks = []
         self.budget_hit = None
         self.t0 = clock.now
@@ -323,12 +324,20 @@ class _FabricMixin:
         for i in range(copies):
             d = delay + i * gap
             if d <= 0.0:
-                self._deliver(pdu)
+                self._deliver(pdu, seq)
             else:
-                w.after(d, self._deliver, pdu)
+                w.after(d, self._deliver, pdu, seq)
 
-    def _deliver(self, pdu):
-        self._real_process_pdu(pdu)
+    def _deliver(self, pdu, wseq=None):
+        # wseq: log sequence number at which this frame was put on the wire (None: injected by an adversary);
+        # recorded with every reception so that oracles can tell a late network copy from a fresh frame
+        w = self.world
+        prev = w.delivering
+        w.delivering = wseq
+        try:
+            self._real_process_pdu(pdu)
+        finally:
+            w.delivering = prev
 
 
 class SimNetwork(_FabricMixin, Network):
@@ -370,7 +379,7 @@ class _NodeMixin:
         seq = w.log('rx', self.label, addr_str(pdu.pduSource), bytes(pdu.pduData).hex())
         if w.keep_wire:
             w.rx.append({'seq': seq, 't': w.now, 'node': self.label, 'src': addr_str(pdu.pduSource),
-                         'dst': addr_str(pdu.pduDestination), 'octets': bytes(pdu.pduData)})
+                         'dst': addr_str(pdu.pduDestination), 'octets': bytes(pdu.pduData), 'wseq': w.delivering})
         try:
             self._real_response(pdu)
         except BudgetExceeded:
